@@ -366,8 +366,16 @@ def check_lineage(case):
     ls = case["lspec"]
     with specmod.quiet():
         M = lingen.to_lineage_model(ls)
+    simulator = None
     try:
-        recs, L = lingen.simulate_lineage(M, ls["grid"], case["seed"], ls["cells"])
+        if case.get("reused_simulator"):
+            # one simulator object runs a lineage of the same model first (another seed): the lineage it returns
+            # afterwards is a new one, made of this run's cells only
+            from bioscrape.lineage import LineageSSASimulator
+            simulator = LineageSSASimulator()
+            lingen.simulate_lineage(M, ls["grid"], case["seed"] + 17, ls["cells"], simulator=simulator)
+            res.label("simulator_object_used_for_a_lineage_before")
+        recs, L = lingen.simulate_lineage(M, ls["grid"], case["seed"], ls["cells"], simulator=simulator)
     except ValueError as e:
         if "dividing too fast" in str(e):
             res.skip = "cells_divide_faster_than_grid"
@@ -529,6 +537,8 @@ def lineage_cases(draw, kind):
     case = {"kind": kind, "lspec": ls, "seed": draw(st.integers(1, 2 ** 40))}
     if kind == "single":
         case["safe"] = draw(st.booleans())
+    else:
+        case["reused_simulator"] = draw(st.integers(0, 3)) == 0
     return case
 
 
